@@ -73,7 +73,7 @@ EXPORT bool _strisascii_s_chk(const char *dest, rsize_t dmax,
 {
     CHK_DEST_DMAX_BOOL("strisascii_s", RSIZE_MAX_STR)
 
-    while (*dest && dmax) {
+    while (dmax && *dest) {
         if ((unsigned char)*dest > 127) {
             return (false);
         }
